@@ -105,18 +105,18 @@ Proof.
       * intros [= _ _ <-]. simpl in *. lia.
 Qed.
 
-Lemma bnode_rest_len inp : forall acc v tr rest, bnode_rest inp acc = Ok v tr rest -> length rest <= length inp.
+Lemma bnode_rest_len inp t : forall acc v tr rest, bnode_rest inp acc t = Ok v tr rest -> length rest <= length inp.
 Proof.
-  induction inp as [|r0 inp IH]; intros acc v tr rest; simpl; [discriminate|].
+  induction inp as [|r0 inp IH]; intros acc v tr rest; simpl; [destruct t; [intros [= _ _ <-]; simpl; lia|discriminate]|].
   destruct (pn_chars_nt (fst r0) || N.eqb (fst r0) 46); [intros H; apply IH in H; lia|].
   intros [= _ _ <-]. simpl. lia.
 Qed.
 
-Lemma open_bnode_len us colon inp v ps rest : open_bnode us colon inp = POk v ps rest -> length rest <= length inp.
+Lemma open_bnode_len us colon inp t v ps rest : open_bnode us colon inp t = POk v ps rest -> length rest <= length inp.
 Proof.
   unfold open_bnode. destruct inp as [|r0 inp']; [discriminate|].
   destruct (pn_chars_u_nt (fst r0) || is_digit (fst r0)); [|discriminate].
-  destruct (bnode_rest inp' [r0]) as [lab tr rest1| | |] eqn:E; try discriminate.
+  destruct (bnode_rest inp' [r0] t) as [lab tr rest1| | |] eqn:E; try discriminate.
   apply bnode_rest_len in E.
   destruct (rev lab) as [|lastr before]; [discriminate|].
   destruct before as [|b0 before'].
@@ -149,7 +149,7 @@ Proof.
   destruct (N.eqb (fst r0) 95 && negb _).
   { destruct rest0 as [|r1 rest1]; [split; [discriminate|intros; discriminate]|].
     destruct (N.eqb (fst r1) 58); [|split; [discriminate|intros; discriminate]].
-    destruct (open_bnode r0 r1 rest1) as [b ps rest'| |] eqn:E; (split; [discriminate|]); intros v tr' rest H; try discriminate.
+    destruct (open_bnode r0 r1 rest1 t) as [b ps rest'| |] eqn:E; (split; [discriminate|]); intros v tr' rest H; try discriminate.
     injection H as _ _ <-. apply open_bnode_len in E. simpl. lia. }
   destruct (N.eqb (fst r0) 34 && _).
   { destruct (open_literal r0 rest0 t) as [l ps rest'| |] eqn:E; (split; [discriminate|]); intros v tr' rest H; try discriminate.
@@ -327,11 +327,11 @@ Proof.
       * intros [= <- _ _]. exact Hplain.
 Qed.
 
-Lemma open_bnode_wf us colon inp v ps rest : open_bnode us colon inp = POk v ps rest -> exists l, v = TBlank l /\ l <> [].
+Lemma open_bnode_wf us colon inp t v ps rest : open_bnode us colon inp t = POk v ps rest -> exists l, v = TBlank l /\ l <> [].
 Proof.
   unfold open_bnode. destruct inp as [|r0 inp']; [discriminate|].
   destruct (pn_chars_u_nt (fst r0) || is_digit (fst r0)); [|discriminate].
-  destruct (bnode_rest inp' [r0]) as [lab tr rest1| | |] eqn:E; try discriminate.
+  destruct (bnode_rest inp' [r0] t) as [lab tr rest1| | |] eqn:E; try discriminate.
   destruct (rev lab) as [|lastr before] eqn:Er; [discriminate|].
   assert (Hlab : lab <> []) by (intros ->; discriminate).
   destruct before as [|b0 before'].
@@ -356,7 +356,7 @@ Proof.
     apply open_iri_wf in E. destruct k; exact E. }
   destruct (N.eqb (fst r0) 95 && negb _) eqn:Eb.
   { destruct rest0 as [|r1 rest1]; [discriminate|]. destruct (N.eqb (fst r1) 58); [|discriminate].
-    destruct (open_bnode r0 r1 rest1) as [b ps rest'| |] eqn:E; try discriminate. intros [= <- _ _].
+    destruct (open_bnode r0 r1 rest1 t) as [b ps rest'| |] eqn:E; try discriminate. intros [= <- _ _].
     apply open_bnode_wf in E as (l & -> & Hl). apply andb_true_iff in Eb as [_ Ek].
     destruct k; simpl in *; try exact Hl; discriminate. }
   destruct (N.eqb (fst r0) 34 && _) eqn:El.
